@@ -671,7 +671,7 @@ def e_replayed(rc):
     return [3] + R.e_cmd(rc.exit_command)
 
 
-def crash_case(spec, kind, scratch, name, k, plan2=None):
+def crash_case(spec, kind, scratch, name, k, plan2=None, eager=False):
     """Phase 1: run until the k-th tick is persisted, then the process is dead (the store drops every later write
     and the chain is stopped).  Phase 2: a new chain on the same persisted data; _on_server_start; the environment
     repeats the external inputs that were not accepted before the crash."""
@@ -737,10 +737,25 @@ def crash_case(spec, kind, scratch, name, k, plan2=None):
             enc += exp
         obs.resume_enc = enc
         obs.exit_command = rc.exit_command if rc is not None else None
+        pend2 = accepted_externals(spec, obs.prefix)
+        obs.eager_sent = None
+        if eager is not False and pend2 and pend2[0][0] == "hr":
+            # a client whose reply arrives WHILE the new process is starting up (one loop turn after start() was called)
+            act0 = pend2.pop(0)
+
+            async def early():
+                for _ in range(int(eager)):
+                    await asyncio.sleep(0)
+                try:
+                    await svc2.send_event("h1", HR(i=900 + act0[1], k=act0[1]))
+                    obs.eager_sent = "accepted"
+                except Exception as ex:  # noqa: BLE001
+                    obs.eager_sent = "refused %r" % (ex,)
+            asyncio.ensure_future(early())
         await svc2.start()
         box2 = []
         await asyncio.sleep(1)
-        await _externals(svc2, rt2, store2, spec, hd.run_id, accepted_externals(spec, obs.prefix), box2,
+        await _externals(svc2, rt2, store2, spec, hd.run_id, pend2, box2,
                          spec.get("horizon", 70), lambda: store2.nticks + len(log2))
         await asyncio.sleep(12)
         obs.record = await _get(store2)
